@@ -135,7 +135,12 @@ def gen_subject(r):
         if "{:" + p + ":}" in text:
             params.append([p, r.choice([{"k": "const", "v": r.choice([0, "pp", None, True])},
                                         {"k": "opt", "key": r.choice(["D", "E", "B"]), "dk": "const", "dv": r.choice(["dd", 1])},
-                                        {"k": "apply", "src": {"k": "ds", "id": "1"}, "fn": "tostr", "n": 1}])])
+                                        {"k": "apply", "src": {"k": "ds", "id": "1"}, "fn": "tostr", "n": 1},
+                                        # parameters that report an option the text reads as well WITHOUT reporting what that
+                                        # option's value refers to under the caller's dictionary (a pre-set shadows it; AllOptions
+                                        # reports top-level keys only)
+                                        {"k": "with", "spec": {"k": "opt", "key": r.choice(["A", "B", "C"]), "dk": "const", "dv": "wd"}, "P": {r.choice(["A", "B", "C", "D"]): r.choice(["preset", 0])}, "force": True},
+                                        {"k": "apply", "src": {"k": "allopts"}, "fn": "tostr", "n": 2}])])
     if params and r.random() < 0.25:
         # a parameter NAMED like an option the same text reads ({A} and {:A:} are different things)
         old, new = params[0][0], r.choice(["A", "B", "C", "D"])
